@@ -465,7 +465,7 @@ func (f *fileRW) selectStmt(s *ast.SelectStmt) {
 			}
 			body.WriteString("case " + idx + ":" + f.render(bs, be))
 		}
-		return "{ " + decl.String() + "switch vrt_vchan.Select(" + fmt.Sprint(hasDefault) + ", " + cases.String() + ") {\n" + body.String() + "} }"
+		return "{ " + decl.String() + "switch vrt_vchan.Select(" + fmt.Sprint(hasDefault) + ", " + cases.String() + ") {\n" + body.String() + "default: panic(\"vrt: select returned an invalid index\")\n} }"
 	})
 }
 
